@@ -284,6 +284,19 @@ func check(c Case) hx.Verdict {
 			if g3 == nil || !model.Equal(g3, model.NewSeq(a, b)) {
 				return hx.Bad("", "overwriting the merge result changed an operand (shared nodes): `%s` gives %v, expected %s (err %q)", e3, js(g3), model.NewSeq(a, b).JSON(), o3.Err)
 			}
+			// a right operand whose sequences were rebuilt (here: stored reversed and reversed back inside the
+			// expression) is the same value and must merge the same way: elements are placed by where they are
+			if hasSeq(b) {
+				in3 := model.NewMap().Set("a", a).Set("bp", reverseSeqs(b)).JSON()
+				e5 := ".a " + op + " (.bp | ((.. | select(kind == \"seq\")) |= reverse))"
+				g5, o5 := one(e5, in3, false)
+				if v := fail(o5, e5, in3); v != nil {
+					return *v
+				}
+				if g5 == nil || !model.Equal(g5, want) {
+					return hx.Bad("", "merging a right operand with rebuilt sequences differs: `%s` gives %v, expected %s (err %q) input=%s", e5, js(g5), want.JSON(), o5.Err, in3)
+				}
+			}
 			// the same with operands that are documents themselves (no parent node) and with a variable bound to one
 			in2 := a.JSON() + "\n" + b.JSON() + "\n"
 			for _, e4 := range []string{
@@ -359,6 +372,35 @@ func check(c Case) hx.Verdict {
 		labels = append(labels, "deep_common_key")
 	}
 	return hx.OK(st.conflict || st.deepCommon, fmt.Sprint(c.Docs, c.Flags, c.Form), labels...)
+}
+
+func hasSeq(v *model.Value) bool {
+	found := false
+	v.Walk(func(x *model.Value) {
+		if x.K == model.Seq && len(x.Elem) > 1 {
+			found = true
+		}
+	})
+	return found
+}
+
+func reverseSeqs(v *model.Value) *model.Value {
+	switch v.K {
+	case model.Seq:
+		o := model.NewSeq()
+		for i := len(v.Elem) - 1; i >= 0; i-- {
+			o.Elem = append(o.Elem, reverseSeqs(v.Elem[i]))
+		}
+		return o
+	case model.Map:
+		o := model.NewMap()
+		for i, k := range v.Keys {
+			o.Keys = append(o.Keys, k)
+			o.Vals = append(o.Vals, reverseSeqs(v.Vals[i]))
+		}
+		return o
+	}
+	return v
 }
 
 func js(v *model.Value) string {
